@@ -393,7 +393,10 @@ class LogicalType(type):  # noqa
 
             # 2. try to transform in strict mode
             if not context.options.no_data_loss or not context.options.no_explicit_cast:
-                strict_options = utype.Options(no_data_loss=True, no_explicit_cast=True)
+                # (a stricter pass must fail on an element it cannot take, not succeed by excluding / preserving it:
+                # the error policies apply in the final pass only)
+                strict_options = utype.Options(no_data_loss=True, no_explicit_cast=True, invalid_items='throw',
+                                               invalid_keys='throw', invalid_values='throw')
 
                 for con in cls.args:
                     with context.enter(cls.combinator, options=strict_options) as new_context:
@@ -409,7 +412,8 @@ class LogicalType(type):  # noqa
             # 3. try to transform with no data loss
             # e.g. Union[str, List[str]] -> [1, 2] -> ['1', '2']
             if not context.options.no_data_loss and not context.options.no_explicit_cast:
-                no_loss_options = utype.Options(no_data_loss=True)
+                no_loss_options = utype.Options(no_data_loss=True, invalid_items='throw',
+                                                invalid_keys='throw', invalid_values='throw')
 
                 for con in cls.args:
                     with context.enter(cls.combinator, options=no_loss_options) as new_context:
